@@ -53,6 +53,7 @@ func families(tier string) []family {
 		{"stream", "stream", 40_000, 1_200_000, 8, 2, 40, caseStream},
 		{"utils", "utils", 40_000, 1_200_000, 4, 1, 40, caseUtils},
 		{"reuse", "reuse", 42_000, 1_400_000, 8, 2, 40, caseReuse},
+		{"keep", "keep", 28_000, 900_000, 8, 2, 40, caseKeep},
 		{"edge", "edge", 14, 140, 1, 1, 2, caseEdge},
 	}
 }
@@ -127,7 +128,9 @@ func childMain(args []string) int {
 					logMu.Lock()
 					logCase(fmt.Sprintf("conc %d goroutine %d\n", idx, g))
 					logMu.Unlock()
-					switch idx % 6 {
+					switch idx % 7 {
+					case 6:
+						runOne("keepconc", master, idx, caseKeepShared)
 					case 5:
 						runOne("reuseconc", master, idx, caseReusePooled)
 					case 0:
@@ -359,7 +362,10 @@ func parentMain() {
 		"reuse_tsd_rejected_input_right_after_valid", "reuse_bitreader_rejected_input_right_after_valid",
 		"reuse_xor_rejected_input_right_after_valid", "reuse_snappy_rejected_input_right_after_valid",
 		"reuse_stream_rejected_input_right_after_valid", "reuse_fixedoffset_through_pool", "reuse_tsd_through_pool",
-		"reuse_fixedoffset_valid_right_after_invalid", "reuse_snappy_valid_right_after_invalid", "util_cases", "edge_blocks_ending_at_slot_65535",
+		"reuse_fixedoffset_valid_right_after_invalid", "reuse_snappy_valid_right_after_invalid",
+		"keep_earlier_results_compared", "keep_earlier_results_decoded_bitmap", "keep_earlier_results_decoded_fixedoffset",
+		"keep_earlier_results_decoded_delta", "keep_earlier_results_decoded_tsd", "keep_earlier_results_decoded_xor",
+		"keep_earlier_results_decoded_stream", "keep_earlier_results_decoded_snappy", "util_cases", "edge_blocks_ending_at_slot_65535",
 	}
 	if raceBin != "" {
 		need = append(need, "concurrent_histories_under_race", "pool_encoder_reuse_observed_under_race")
